@@ -104,7 +104,7 @@ def _observe_all(cases, procs):
     if procs <= 1 or len(cases) < 200:
         outs = drv.run_chunk([cases[i] for i in order])
     else:
-        size = max(50, (len(cases) + procs * 4 - 1) // (procs * 4))
+        size = max(50, (len(cases) + procs * 16 - 1) // (procs * 16))
         chunks, cur, last = [], [], None
         for i in order:                      # look-alikes never straddle a chunk boundary
             k = _lookalike_key(cases[i]["text"])
@@ -293,7 +293,7 @@ def _calibrate():
 def run(rep):
     quick = rep.tier == "quick"
     rng = random.Random(rep.seed)
-    procs = min(8, tlc.NCPU)
+    procs = min(14, tlc.NCPU)
     rep.rule = ("S->I: every RREL tree of weight <= N over navigation a / ~a / 'n'~a (both quotes, names containing "
                 "quotes), parent(T), dots, ^, *, brackets, ',' alternatives and '.' paths x flags, rendered by the "
                 "module, parsed, printed and re-parsed by textx.scoping.rrel, both objects evaluated on fixed models. "
